@@ -1,5 +1,5 @@
 CONSTANTS P = 43  A = 0  B = 7  Gx = 2  Gy = 12  N = 31  Mode = "sign"  RMax = 0
-CONSTANT ESet <- ETwo
+CONSTANT ESet <- EOne
 CONSTANT SSet <- SAll
 CONSTANT DSet <- DAll
 SPECIFICATION Spec
